@@ -31,7 +31,7 @@ def run(tier, seed):
     cov = dict(tot)
     cov["rule"] = ("every (LPs, ranks, threads) with ranks <= LPs <= %d, ranks <= %d, threads <= %d through the real lp_global_init() per rank "
                    "and lp_init()/lp_fini() per thread with per-LP callbacks stubbed, routing macros checked for every LP; plus rank-level "
-                   "partition+routing for LP counts around 2^16 and primes; non-trivial = LPs not divisible by ranks, or per-rank LPs not "
+                   "partition+routing for LP counts around 2^16 and primes, and the full thread-level check for 22 large LP counts (2^16, 2^17, 2^18, 2^19, 2^20 +-1, primes up to 2 000 003) x 11 thread counts x 1-2 ranks; non-trivial = LPs not divisible by ranks, or per-rank LPs not "
                    "divisible by threads" % tuple(args[:3]))
     vc.write_evidence(PID, tier, "model_checking", cov, ["ranks without any LP (ranks > LPs) are outside the property's domain",
                                                          "per-LP init work is stubbed; only ownership and routing are observed"],
